@@ -41,6 +41,8 @@ pub struct GenCfg {
     pub overrides: Vec<String>,
     pub admin_info2: bool,
     pub admin_email: bool,
+    pub eff_log_file: Option<String>,
+    pub eff_dns: bool,
 }
 
 static FILE_SEQ: AtomicU64 = AtomicU64::new(0);
@@ -215,8 +217,11 @@ pub fn gen_config(seeds: &[u16], force_valid: bool) -> GenCfg {
             bad("log_level invalid", &mut reasons);
         }
     }
+    let mut eff_log_file: Option<String> = None;
     if s.chance(20) {
-        t += &format!("log_file = {}\n", q(&format!("{}/c20-unused.log", tmp_dir())));
+        let lf = format!("{}/c20-unused.log", tmp_dir());
+        t += &format!("log_file = {}\n", q(&lf));
+        eff_log_file = Some(lf);
     }
     // tables
     if s.chance(15) {
@@ -379,6 +384,20 @@ pub fn gen_config(seeds: &[u16], force_valid: bool) -> GenCfg {
         eff_listen = "127.0.0.3".into();
         overrides.push("listen".into());
     }
+    // -L replaces the log file of the configuration file (or sets one), -d switches DNS lookup on
+    if s.chance(p_cli) {
+        let lf = format!("{}/c20-cli.log", tmp_dir());
+        cli.push("-L".into());
+        cli.push(lf.clone());
+        eff_log_file = Some(lf);
+        overrides.push("log_file".into());
+    }
+    let mut eff_dns = false;
+    if s.chance(p_cli / 2) {
+        cli.push("-d".into());
+        eff_dns = true;
+        overrides.push("dns_lookup".into());
+    }
     if !force_valid && s.chance(8) {
         match s.pick(3) {
             0 => {
@@ -422,6 +441,8 @@ pub fn gen_config(seeds: &[u16], force_valid: bool) -> GenCfg {
         overrides,
         admin_info2,
         admin_email,
+        eff_log_file,
+        eff_dns,
     }
 }
 
@@ -490,6 +511,12 @@ pub fn check_validation(c: &CfgCase, st: &mut Stats) -> Result<(), Viol> {
             }
             if g.overrides.contains(&"tls".to_string()) && cfg.tls.as_ref().map(|t| t.cert_file.as_str()) != Some("cert.crt") {
                 diffs.push("tls override ignored".into());
+            }
+            if cfg.log_file != g.eff_log_file {
+                diffs.push(format!("log_file {:?} != {:?}", cfg.log_file, g.eff_log_file));
+            }
+            if cfg.dns_lookup != g.eff_dns {
+                diffs.push(format!("dns_lookup {} != {}", cfg.dns_lookup, g.eff_dns));
             }
             if cfg.motd != g.motd || cfg.max_joins != g.max_joins {
                 diffs.push("motd/max_joins differ from the file".into());
